@@ -56,7 +56,29 @@ int __wrap_regcomp(regex_t *preg, const char *pattern, int cflags) {
  * the judge only.
  *  -> OK flags0=<..> range=<str> req=<chunk numbers> hdr=<rets> body=<rets> flags=<..> err=<n> dl=<dl_chunk_data>:<write_in_chunk>:<tgt_check>
  *        mp=<state>:<length>:<buffer_len> file=<bytes> rx=.. rc=..          (the file itself is left on disk for the judge) */
+/* optional 9th argument warm=<zckfile>: BEFORE anything else the process copies that file's chunks into a scratch target
+ * (zck_copy_chunks on two contexts of their own, discarded afterwards), as a downloader that first re-uses a local file does.
+ * Nothing of it may show in what follows: the library keeps no state outside its contexts. */
+static void dl_warm(const char *path) {
+    size_t bl; unsigned char *b = slurp(path, &bl);
+    if(!b) return;
+    int sfd = open(path, O_RDONLY);
+    zckCtx *src = zck_create();
+    if(sfd >= 0 && zck_init_read(src, sfd)) {
+        int tfd = memfd_create("warm", 0);
+        ssize_t hl = zck_get_header_length(src);
+        if(tfd >= 0 && hl > 0 && (size_t)hl <= bl && write(tfd, b, hl) == hl && ftruncate(tfd, bl) == 0) {
+            lseek(tfd, 0, SEEK_SET);
+            zckCtx *t2 = zck_create();
+            if(zck_init_read(t2, tfd)) { zck_find_valid_chunks(t2); zck_reset_failed_chunks(t2); zck_copy_chunks(src, t2); }
+            zck_free(&t2);
+        }
+        if(tfd >= 0) close(tfd);
+    }
+    zck_free(&src); if(sfd >= 0) close(sfd); free(b);
+}
 static void op_dlfeed(FILE *out, const char *id, char **a, int n) {
+    if(n > 8 && strncmp(a[8], "warm=", 5) == 0) dl_warm(a[8] + 5);
     int fd = open(a[0], O_RDWR);
     if(fd < 0) { fprintf(out, "%s HARNESS-ERR nofile\n", id); return; }
     zckCtx *zck = zck_create();
